@@ -112,6 +112,7 @@ type Channel struct {
 	closeOnce  sync.Once
 	readerDone chan struct{}
 	closed     atomic.Bool
+	opened     atomic.Bool
 
 	Q              *util.Queue
 	Errs           chan error
@@ -123,6 +124,12 @@ type Channel struct {
 // Open opens the underlying Transport and begins the `read` goroutine, this also kicks off any
 // in channel authentication (if necessary).
 func (c *Channel) Open() (reterr error) {
+	if c.opened.Load() && !c.closed.Load() {
+		// opening again without a Close in between (a caller that reconnects after an error): the previous
+		// session is shut down first, its read loop and its signals must not be shared with the new one
+		_ = c.Close()
+	}
+
 	if c.closed.Load() {
 		// opening again after a Close: the shutdown signals of the previous session are used up, start
 		// over with fresh ones (and without whatever that session left unread). a forced close may have
@@ -158,6 +165,8 @@ func (c *Channel) Open() (reterr error) {
 	}()
 
 	c.l.Debug("starting channel read loop")
+
+	c.opened.Store(true)
 
 	go c.read()
 
